@@ -1,7 +1,7 @@
 INIT Init
 NEXT Next
 CONSTANTS
-  FactorNames <- N_small
+  FactorNames <- N_q7
   Powers <- P_pm1
   MaxFactors = 2
   Mags <- M_one
